@@ -37,7 +37,8 @@ Qed.
 
 (* the statuses the tables can produce *)
 Definition htable_statuses : list Z :=
-  H_OK_STATUS :: H_REJ_BODY_STATUS :: H_REJ_API_STATUS :: fst H_MATCH_STATUS_DEFAULT :: map (fun r => fst (snd r)) H_MATCH_STATUS.
+  H_OK_STATUS :: H_REJ_BODY_STATUS :: H_REJ_API_STATUS :: fst H_MATCH_STATUS_DEFAULT ::
+  (map (fun r => fst (snd r)) H_MATCH_STATUS ++ map (fun r => fst (snd r)) H_REJ_WARP_ROWS).
 Lemma table_statuses_ok : forallb hstatus_okb htable_statuses = true.
 Proof. vm_compute. reflexivity. Qed.
 Lemma table_status_ok s : In s htable_statuses -> hstatus_ok s.
@@ -57,7 +58,7 @@ Qed.
 Lemma match_status_status_ok c : hstatus_ok (fst (hmatch_status c)).
 Proof.
   unfold hmatch_status. destruct (hassoc c H_MATCH_STATUS) as [r|] eqn:E.
-  - apply table_status_ok. unfold htable_statuses. do 4 right. apply hassoc_in in E.
+  - apply table_status_ok. unfold htable_statuses. do 4 right. apply in_or_app. left. apply hassoc_in in E.
     change (fst r) with ((fun r : Z * (Z * Z) => fst (snd r)) (c, r)). apply in_map. exact E.
   - apply table_status_ok. unfold htable_statuses. do 3 right. left. reflexivity.
 Qed.
@@ -149,13 +150,23 @@ Proof.
   - inversion Hf as [|? ? _ Hr]. exact (proj1 (Forall_forall _ _) Hr _ E).
 Qed.
 
+Lemma find_warp_in rows js r : hfind_warp rows js = Some r -> In r (map snd rows).
+Proof.
+  induction rows as [|[k r'] rows IH]; cbn; [discriminate|].
+  destruct (hhas_kind k js); intros H; [inversion H; left; reflexivity | right; exact (IH H)].
+Qed.
+
 Lemma recover_status_ok js : hstatus_ok (rp_status (hrecover js)).
 Proof.
-  unfold hrecover. destruct (hfind_body js) eqn:Eb; cbn.
-  - apply table_status_ok. right. left. reflexivity.
-  - destruct (hfind_api js) eqn:Ea; cbn.
-    + apply table_status_ok. right. right. left. reflexivity.
-    + right. left. apply warp_default_status_4xx. apply no_body_no_api_plain; assumption.
+  unfold hrecover. destruct (hfind_body js) eqn:Eb.
+  - cbn [rp_status]. apply table_status_ok. right. left. reflexivity.
+  - destruct (hfind_api js) eqn:Ea.
+    + cbn [rp_status]. apply table_status_ok. right. right. left. reflexivity.
+    + destruct (hfind_warp H_REJ_WARP_ROWS js) as [[st c]|] eqn:Ew; cbn [rp_status].
+      * apply table_status_ok. unfold htable_statuses. do 4 right. apply in_or_app. right.
+        apply find_warp_in in Ew. apply in_map_iff in Ew. destruct Ew as ([k r] & E & Hin). cbn [snd] in E. subst r.
+        apply in_map_iff. exists (k, (st, c)). split; [reflexivity | exact Hin].
+      * right. left. apply warp_default_status_4xx. apply no_body_no_api_plain; assumption.
 Qed.
 
 (* ---------------- status_documented ---------------- *)
@@ -243,7 +254,10 @@ Proof.
 Qed.
 
 Lemma recover_not_forwarded js : rp_forwarded (hrecover js) = false.
-Proof. unfold hrecover. destruct (hfind_body js); [reflexivity|]. destruct (hfind_api js); reflexivity. Qed.
+Proof.
+  unfold hrecover. destruct (hfind_body js); [reflexivity|]. destruct (hfind_api js); [reflexivity|].
+  destruct (hfind_warp H_REJ_WARP_ROWS js) as [[st c]|]; reflexivity.
+Qed.
 
 (* whenever the HTTP layer forwards: the request went through the field checks of a route, every
    requirement of the unwrap()s of that route's internal API method holds of the parsed request, and the
@@ -292,6 +306,12 @@ Definition hdoc_tableb : bool :=
   && forallb (fun r => hcode_documentedb (snd r) && negb (Z.eqb (snd r) H_ERR_UNEXPECTED_ERROR)) H_REJ_BODY_ROWS
   && (hcode_documentedb H_REJ_BODY_DEFAULT && negb (Z.eqb H_REJ_BODY_DEFAULT H_ERR_UNEXPECTED_ERROR))
   && Z.eqb H_OK_STATUS 200.
+(* handle_rejection answers an unsupported content-type itself, and every warp rejection it answers gets a documented code *)
+Definition hwarp_rows_docb : bool :=
+  existsb (fun r => hwarpkind_eqb (fst r) WUnsupportedMediaType) H_REJ_WARP_ROWS
+  && forallb (fun r => hcode_documentedb (snd (snd r)) && negb (Z.eqb (snd (snd r)) H_ERR_UNEXPECTED_ERROR)) H_REJ_WARP_ROWS.
+Lemma warp_rows_doc : hwarp_rows_docb = true.
+Proof. vm_compute. reflexivity. Qed.
 Lemma doc_table : hdoc_tableb = true.
 Proof. vm_compute. reflexivity. Qed.
 
@@ -383,6 +403,12 @@ Lemma respond_addressed rq g i rt :
   | OReply r => respond rq g = r
   | ORej (RjBody m) => respond rq g = mk_hreply H_REJ_BODY_STATUS (Some (hclassify H_REJ_BODY_ROWS H_REJ_BODY_DEFAULT m)) false
   | ORej (RjApi c) => respond rq g = mk_hreply H_REJ_API_STATUS (Some c) false
+  | ORej RjMediaType =>
+    exists js, In RjMediaType js /\
+               respond rq g = match hfind_warp H_REJ_WARP_ROWS js with
+                              | Some (st, c) => mk_hreply st (Some c) false
+                              | None => mk_hreply (hwarp_default_status js) None false
+                              end
   | ORej _ => True
   end.
 Proof.
@@ -407,12 +433,42 @@ Proof.
   rewrite (first_reply_weak _ HB). rewrite rejections_app. cbn [hrejections].
   unfold hrecover.
   rewrite (find_body_weak_app _ _ (rejections_weak _ HA)).
+  assert (Hfb : hfind_body (hrejections B) = None).
+  { pose proof (rejections_weak _ HB) as Hw. rewrite <- (app_nil_r (hrejections B)). rewrite find_body_weak_app by exact Hw. reflexivity. }
   destruct j; try exact I.
+  - cbn [hfind_body]. rewrite Hfb. rewrite (find_api_weak_app _ _ (rejections_weak _ HA)). cbn [hfind_api].
+    rewrite (find_api_weak _ (rejections_weak _ HB)).
+    exists (hrejections A ++ RjMediaType :: hrejections B). split; [apply in_or_app; right; left; reflexivity | reflexivity].
   - cbn [hfind_body]. reflexivity.
   - cbn [hfind_body].
-    assert (Hfb : hfind_body (hrejections B) = None).
-    { pose proof (rejections_weak _ HB) as Hw. rewrite <- (app_nil_r (hrejections B)). rewrite find_body_weak_app by exact Hw. reflexivity. }
     rewrite Hfb. rewrite (find_api_weak_app _ _ (rejections_weak _ HA)). cbn [hfind_api]. reflexivity.
+Qed.
+
+Lemma hwarpkind_eqb_eq a b : hwarpkind_eqb a b = true -> a = b.
+Proof. destruct a, b; cbn; intros H; try discriminate; reflexivity. Qed.
+
+Lemma has_kind_media js : In RjMediaType js -> hhas_kind WUnsupportedMediaType js = true.
+Proof. intros H. unfold hhas_kind. apply existsb_exists. exists RjMediaType. split; [exact H | reflexivity]. Qed.
+
+Lemma find_warp_media rows js :
+  existsb (fun r : hwarpkind * (Z * Z) => hwarpkind_eqb (fst r) WUnsupportedMediaType) rows = true ->
+  In RjMediaType js -> exists r, hfind_warp rows js = Some r.
+Proof.
+  intros He Hin. induction rows as [|[k r] rows IH]; cbn in *; [discriminate|].
+  destruct (hhas_kind k js) eqn:Ek; [eauto|].
+  apply orb_prop in He. destruct He as [He|He]; [|exact (IH He)].
+  apply hwarpkind_eqb_eq in He. subst k. rewrite (has_kind_media js Hin) in Ek. discriminate.
+Qed.
+
+(* an unsupported content-type among the rejections (no body / handler rejection before it): a JSON error with a documented code *)
+Lemma media_type_documented js :
+  In RjMediaType js ->
+  exists st c, hfind_warp H_REJ_WARP_ROWS js = Some (st, c) /\ hdoc_code c.
+Proof.
+  intros Hin. pose proof warp_rows_doc as H. unfold hwarp_rows_docb in H. apply andb_prop in H. destruct H as [He Hall].
+  destruct (find_warp_media _ js He Hin) as ([st c] & E). exists st, c. split; [exact E|].
+  apply find_warp_in in E. apply in_map_iff in E. destruct E as ([k r] & Er & Hr). cbn in Er. subst r.
+  apply doc_code_of_b. exact (proj1 (forallb_forall _ _) Hall _ Hr).
 Qed.
 
 (* the internal API answers, and with one of the codes internal.rs can produce *)
@@ -425,12 +481,11 @@ Theorem error_body_documented rq g i rt cap len :
   hfirst_segment (rq_target rq) = rt_name rt ->         (* addressed *)
   rq_method rq = rt_method rt ->                        (* with the right method *)
   rq_clen rq = Some len -> len <= cap ->                (* and a body of acceptable size *)
-  rq_ctype rq <> CtOther ->                             (* declared as JSON or not declared *)
   hinternal_answer rt g ->
   rp_status (respond rq g) <> 200 ->
   exists c, rp_code (respond rq g) = Some c /\ In c HDoc_CODES /\ c <> H_ERR_UNEXPECTED_ERROR.
 Proof.
-  intros Hn Hcap Hseg Hm Hlen Hle Hct Hg Hst.
+  intros Hn Hcap Hseg Hm Hlen Hle Hg Hst.
   assert (Hrt : In rt H_ROUTES) by (eapply nth_error_In; exact Hn).
   pose proof (respond_addressed rq g i rt Hn Hseg) as H.
   remember (nth i (rq_bodies rq) (BodyErr [])) as b.
@@ -439,7 +494,11 @@ Proof.
   rewrite Hseg in H. replace (hbytes_eqb (rt_name rt) (rt_name rt)) with true in H by (symmetry; apply hbytes_eqb_eq; reflexivity).
   cbn [negb] in H. rewrite Hcap, Hlen in H.
   replace (cap <? len) with false in H by (symmetry; apply Z.ltb_ge; exact Hle).
-  assert (Hbody : match b with
+  destruct (rq_ctype rq) eqn:Ect.
+  3:{ (* a content-type other than application/json: handle_rejection's own row *)
+      destruct H as (js & Hin & E). destruct (media_type_documented js Hin) as (st & c & Ew & Hdoc).
+      rewrite Ew in E. rewrite E. cbn. exists c. split; [reflexivity | exact Hdoc]. }
+  all: (assert (Hbody : match b with
                   | BodyErr m => respond rq g = mk_hreply H_REJ_BODY_STATUS (Some (hclassify H_REJ_BODY_ROWS H_REJ_BODY_DEFAULT m)) false
                   | BodyOk fs =>
                     match hrun_checks (rt_checks rt) fs with
@@ -449,39 +508,33 @@ Proof.
                               | None => respond rq g = mk_hreply H_OK_STATUS None false
                               end
                     end
-                  end).
-  { destruct (rq_ctype rq); [| |contradiction];
-      (destruct b as [m|fs]; [exact H|]; destruct (hrun_checks (rt_checks rt) fs); [exact H|]; destruct (rt_internal rt); exact H). }
-  clear H. destruct b as [m|fs].
-  - rewrite Hbody. cbn. eexists. split; [reflexivity|]. apply classify_documented.
-  - destruct (hrun_checks (rt_checks rt) fs) as [c|] eqn:Erun.
-    + rewrite Hbody. cbn. exists c. split; [reflexivity|]. exact (check_code_documented rt fs c Hrt Erun).
-    + destruct (rt_internal rt) as [ia|] eqn:Eia.
-      * assert (Hreq : forall f c, In (f, c) (ia_requires ia) -> hcond_holds fs f c = true)
-          by (apply (covered_requirements rt); auto).
-        rewrite (internal_call_id _ _ _ Hreq) in Hbody. rewrite Hbody in Hst |- *.
-        destruct Hg as [->|(ia' & c & Hia' & -> & Hc)].
-        -- cbn in Hst. rewrite ok_status_200 in Hst. contradiction.
-        -- rewrite Hia' in Eia. inversion Eia. subst ia'.
-           destruct (internal_codes_mapped rt ia c Hrt Hia' Hc) as (st & code & _ & Hms & Hdoc & Hne).
-           cbn. rewrite Hms. cbn. exists code. auto.
-      * rewrite Hbody in Hst. cbn in Hst. rewrite ok_status_200 in Hst. contradiction.
+                  end)
+    by (destruct b as [m|fs]; [exact H|]; destruct (hrun_checks (rt_checks rt) fs); [exact H|]; destruct (rt_internal rt); exact H));
+    clear H; (destruct b as [m|fs];
+    [ rewrite Hbody; cbn; eexists; split; [reflexivity | apply classify_documented]
+    | destruct (hrun_checks (rt_checks rt) fs) as [c|] eqn:Erun;
+      [ rewrite Hbody; cbn; exists c; split; [reflexivity | exact (check_code_documented rt fs c Hrt Erun)]
+      | destruct (rt_internal rt) as [ia|] eqn:Eia;
+        [ assert (Hreq : forall f c, In (f, c) (ia_requires ia) -> hcond_holds fs f c = true)
+            by (apply (covered_requirements rt); auto);
+          rewrite (internal_call_id _ _ _ Hreq) in Hbody; rewrite Hbody in Hst |- *;
+          destruct Hg as [->|(ia' & c & Hia' & -> & Hc)];
+          [ cbn in Hst; rewrite ok_status_200 in Hst; contradiction
+          | rewrite Hia' in Eia; inversion Eia; subst ia';
+            destruct (internal_codes_mapped rt ia c Hrt Hia' Hc) as (st & code & _ & Hms & Hdoc & Hne);
+            cbn; rewrite Hms; cbn; exists code; auto ]
+        | rewrite Hbody in Hst; cbn in Hst; rewrite ok_status_200 in Hst; contradiction ] ] ]).
 Qed.
 
-(* without the content-type hypothesis the statement is false: warp's UnsupportedMediaType rejection is not
-   handled by handle_rejection, the answer is 415 with a text/plain body *)
+(* what the statement would be without handle_rejection's row for warp's UnsupportedMediaType (the code before the
+   fix 8a3c402): with no such row the answer to a text/plain request is warp's 415 without a JSON body *)
 Definition hwitness_415 : hrequest :=
   mk_hrequest MPost (47%N :: HDoc_register) (Some 80) CtOther [BodyOk [(FUserId, 33)]].
-Theorem error_body_documented_refuted :
-  exists rq g i rt cap len,
-    nth_error H_ROUTES i = Some rt /\ rt_cap rt = Some cap /\ hfirst_segment (rq_target rq) = rt_name rt /\
-    rq_method rq = rt_method rt /\ rq_clen rq = Some len /\ len <= cap /\ hinternal_answer rt g /\
-    rp_status (respond rq g) <> 200 /\ rp_code (respond rq g) = None.
-Proof.
-  exists hwitness_415, GOk, 0%nat, H_ROUTE_register, H_REGISTER_BODY_LEN, 80.
-  repeat split; try reflexivity; try (vm_compute; congruence).
-  left. reflexivity.
-Qed.
+Lemma error_body_needs_media_type_row :
+  let os := houtcomes hwitness_415 GOk H_ROUTES (rq_bodies hwitness_415) in
+  hfirst_reply os = None /\ hfind_body (hrejections os) = None /\ hfind_api (hrejections os) = None /\
+  hfind_warp [] (hrejections os) = None /\ hwarp_default_status (hrejections os) = 415.
+Proof. vm_compute. repeat split; reflexivity. Qed.
 
 (* ------------------------------------------------------------------------------------------ *)
 (* the tables say what the documentation pinned in Http.v says *)
@@ -515,7 +568,8 @@ Theorem tables_as_documented :
    H_ERR_APPOINTMENT_ALREADY_TRIGGERED; H_ERR_APPOINTMENT_NOT_FOUND; H_ERR_REGISTRATION_RESOURCE_EXHAUSTED] = HDoc_CODES /\
   H_ERR_UNEXPECTED_ERROR = HDoc_UNEXPECTED /\
   H_MATCH_STATUS_DEFAULT = (400, HDoc_UNEXPECTED) /\
-  H_OK_STATUS = 200 /\ H_REJ_BODY_STATUS = 400 /\ H_REJ_API_STATUS = 400.
+  H_OK_STATUS = 200 /\ H_REJ_BODY_STATUS = 400 /\ H_REJ_API_STATUS = 400 /\
+  H_REJ_WARP_ROWS = HDoc_WARP_ROWS.
 Proof. repeat split; vm_compute; reflexivity. Qed.
 
 (* ------------------------------------------------------------------------------------------ *)
